@@ -190,7 +190,8 @@ def oracle(ctx, kind, p):
             else:
                 check_atom(ctx, a)
             ctx.enumerated(nontrivial=True)
-        for x in [None, 0, 1, -1, 1.5, -0.0, 1e300, 10 ** 30, True, float('inf')]:
+        for x in [None, 0, 1, -1, 1.5, -0.0, 0.0, 1e300, 10 ** 30, True, 1.0, float('inf'), 7, 7.0, 1000.0, 1000,
+                  False, 0, 2.0, 2, -3, -3.0]:
             ctx.current = ['quote', {'x': repr(x)}]
             check_quote(ctx, x)
             ctx.enumerated(nontrivial=True)
